@@ -27,12 +27,15 @@ ASSET = "barter::engine::state::asset::AssetState"
 MD = "barter::engine::state::instrument::data::DefaultInstrumentMarketData"
 
 
-def _time_guard(ctx, body, guard, stored_pred, incoming_pred):
-    """every disjunct has cmp(le|lt, stored, incoming) or an accepted 'nothing stored yet' atom"""
+def _time_guard(ctx, body, guard, stored_pred, incoming_pred, none_of=None):
+    """every disjunct has cmp(le|lt, stored, incoming) or an accepted 'nothing stored yet' atom (`self.<none_of> is None`:
+    the explicit form of `.is_none_or(..)`)"""
     def pred(kind, x):
         if kind == "cmp":
             op, a, b, _cond = x
             return op in ("le", "lt") and stored_pred(a) and incoming_pred(b)
+        if kind == "atom" and none_of is not None:
+            return x[0] == "is" and render(x[1]) == none_of and x[2] == frozenset(["None"])
         return False
     return atoms.guard_implies(ctx.facts, body, guard, pred)
 
@@ -52,7 +55,7 @@ def _extra_atoms(ctx, g, allowed_atom, allowed_fact):
 
 
 def r1(ctx):
-    b = ctx.fbody(name="update_from_balance", self_adt=ASSET, trait="")
+    b = ctx.fibody(name="update_from_balance", self_adt=ASSET, trait="")
     n = 0
     eff = common.effects(b, lambda p: common.path_has(p, "self", "balance"))
     for e in eff:
@@ -99,7 +102,7 @@ def r2(ctx):
     d = [x for x in ds if "MarketEvent" in x]
     if len(d) != 1:
         raise Exception("expected one market-event processor of DefaultInstrumentMarketData, got %r" % d)
-    b = ctx.body(d[0])
+    b = ctx.ibody(d[0])
     n = 0
     for field, tname in (("l1", "last_update_time"), ("last_traded_price", "time")):
         eff = common.effects(b, lambda p: common.path_has(p, "self", field))
@@ -110,12 +113,12 @@ def r2(ctx):
             g = b.guard(e["bi"])
             ok = _time_guard(ctx, b, g,
                              lambda a: render(a).startswith("self." + field) and atoms.ends_with(a, tname),
-                             lambda t: render(t) == "event.time_exchange")
+                             lambda t: render(t) == "event.time_exchange", none_of="self." + field)
             ctx.check("DefaultInstrumentMarketData::process:%s" % field, ok,
                       "update of `%s` must be guarded by `held time < event.time_exchange`" % field,
                       sites=[e["sp"]], got=render_guard(g), key="guard")
             extra = _extra_atoms(ctx, g,
-                                 lambda a: (a[0] == "is" and render(a[1]) == "event.kind") or
+                                 lambda a: (a[0] == "is" and render(a[1]) in ("event.kind", "self." + field)) or
                                            (a[0] == "is" and a[1][0] == "call" and a[1][1].endswith("from_f64") and a[2] == frozenset(["Some"])),
                                  lambda f: f[0] in ("le", "lt") and render(f[1]).startswith("self." + field) and render(f[2]) == "event.time_exchange")
             ctx.check("DefaultInstrumentMarketData::process:%s" % field, not extra,
@@ -141,7 +144,7 @@ def r3(ctx):
 
 
 def r4(ctx):
-    b = ctx.fbody(name="update_from_account", self_adt="barter::engine::state::EngineState", trait="")
+    b = ctx.fibody(name="update_from_account", self_adt="barter::engine::state::EngineState", trait="")
     # no direct stores at all in the routing function
     st = [s for s in b.stores()]
     ctx.check("EngineState::update_from_account", not st,
@@ -183,7 +186,7 @@ def r4(ctx):
                       sites=[t["sp"]], got=render(term[2][1])[:200], want=sorted(want_args[nm]), key="payload")
     ctx.floor("payload hand-offs in update_from_account", n_args, 4)
     # InstrumentState::update_from_account_snapshot -> orders only via update_from_order_snapshot
-    s = ctx.fbody(name="update_from_account_snapshot", self_adt="barter::engine::state::instrument::InstrumentState", trait="")
+    s = ctx.fibody(name="update_from_account_snapshot", self_adt="barter::engine::state::instrument::InstrumentState", trait="")
     st = s.stores()
     ctx.check("InstrumentState::update_from_account_snapshot", not st, "no direct stores", got=[render(x[2]) for x in st],
               key="no-direct-stores")
@@ -192,7 +195,7 @@ def r4(ctx):
     ctx.check("InstrumentState::update_from_account_snapshot", names == ["InstrumentState::update_from_order_snapshot"],
               "orders of a snapshot are applied one by one through update_from_order_snapshot only",
               sites=[t["sp"] for _, t, _ in mut], got=names, key="mutators")
-    ios = ctx.fbody(name="update_from_order_snapshot", self_adt="barter::engine::state::instrument::InstrumentState", trait="")
+    ios = ctx.fibody(name="update_from_order_snapshot", self_adt="barter::engine::state::instrument::InstrumentState", trait="")
     mut = [(bi, t, term) for bi, t, term in ios.real_calls() if common.mutates_self(ios, t, term)]
     names = sorted(set(mir.short(term[1]) for _, _, term in mut))
     ctx.check("InstrumentState::update_from_order_snapshot", names == ["Orders::update_from_order_snapshot"] and not ios.stores(),
